@@ -38,14 +38,28 @@ def _case(draw: Any, args: dict) -> dict:
     files: dict[str, str] = {}
     n = 0
     collide = args.get("tier") == "thorough" and draw(st.booleans())
+    init_decls: dict[str, str] = {}
     for d in dirs:
         files["/".join(d) + "/__init__.py"] = ""
+        if d != [pk] and draw(st.integers(0, 2)) == 0:
+            # a package whose __init__ declares something itself (importable as 'from pkg.tests import fixture_3')
+            n += 1
+            init_decls["/".join(d)] = f"fixture_{n}"
+            files["/".join(d) + "/__init__.py"] = f'"""Package {n}."""\n\n\ndef fixture_{n}(a: int = {n}) -> int:\n    return a\n\n\nclass FixtureBox{n}:\n    y{n}: int = {n}\n'
         k = draw(st.integers(0, 2))
         sibling_dirs = {x[-1] for x in dirs if x[:-1] == d}
         for fname in draw(st.lists(st.sampled_from([f for f in FILE_POOL if f not in sibling_dirs]), min_size=k, max_size=k, unique=True)):
             n += 1
             fn = "shared_name" if collide and draw(st.booleans()) else f"fn_{n}"
             files["/".join(d) + f"/{fname}.py"] = f'"""Module {n}."""\n\n\ndef {fn}(a: int = {n}) -> int:\n    return a\n\n\nclass Cls{n}:\n    x{n}: int = {n}\n'
+    # modules outside excluded directories may import from any package of the tree (this puts it into mypy's build graph)
+    for rel in sorted(files):
+        if rel.endswith("__init__.py") or not init_decls:
+            continue
+        if not in_excluded(rel) and draw(st.booleans()):
+            target = draw(st.sampled_from(sorted(init_decls)))
+            head, _, rest = files[rel].partition("\n")
+            files[rel] = head + "\n" + f"from {target.replace('/', '.')} import {init_decls[target]} as _imported\n" + rest
     return {"pkgname": pk, "files": files, "options": {"nc": draw(st.booleans()), "docstyle": draw(st.sampled_from(["PLAINTEXT", "PLAINTEXT", "NUMPYDOC"]))}, "src_root": draw(st.sampled_from(["s", "s", "s", "docs", "tests"])) if (args.get("tier") == "thorough" or draw(st.integers(0, 9)) == 0) else "s"}
 
 
@@ -98,8 +112,10 @@ def judge(case: dict) -> dict:
             for entry_list in ("classes", "functions"):
                 for e in api.get(entry_list, []):
                     parts = e["id"].split("/")
-                    mod_id = next((m for m in sorted(exp_mods | {f[:-3] for f in py}, key=len, reverse=True) if e["id"].startswith(m + "/")), None)
-                    if mod_id and any(seg in EXCLUDED for seg in mod_id.split("/")[:-1]):
+                    all_mods = exp_mods | {f[:-3] for f in py} | {f[: -len("/__init__.py")] for f in files if f.endswith("/__init__.py")}
+                    mod_id = next((m for m in sorted(all_mods, key=len, reverse=True) if e["id"].startswith(m + "/")), None)
+                    is_pkg = mod_id is not None and f"{mod_id}/__init__.py" in files
+                    if mod_id and any(seg in EXCLUDED for seg in (mod_id.split("/") if is_pkg else mod_id.split("/")[:-1])):
                         discs.append(Discrepancy.make("excluded_declaration_in_api", e["id"], f"{entry_list} entry from an excluded directory (flag off)", tags))
                     _ = parts
             for rel in r["stubs"]:
